@@ -1,6 +1,7 @@
 import RedisGoModel.Driver.Util
 import RedisGoModel.Driver.Glob
 import RedisGoModel.Driver.Parser
+import RedisGoModel.Driver.Exec
 /-! Correspondence driver: reads one observed operation per line on stdin, recomputes it with the model, prints
     `MISMATCH <lineno> <detail>` for every disagreement and a final `SUMMARY` line. -/
 open Driver
@@ -10,6 +11,7 @@ structure St where
   bad : Nat := 0
   pos : Nat := 0   -- lines whose model outcome is "positive" (non-trivial by the engine's rule)
   unk : Nat := 0
+  ex : ExecSt := {}
 
 partial def loop (h : IO.FS.Stream) (st : St) : IO St := do
   let line ← h.getLine
@@ -18,7 +20,9 @@ partial def loop (h : IO.FS.Stream) (st : St) : IO St := do
   let fs := fields line
   if fs.isEmpty then loop h st else
   let n := st.n + 1
-  match (globLine fs).orElse (fun _ => parserLine fs) with
+  let (ex', exv) := execLine st.ex fs
+  let st := { st with ex := ex' }
+  match (exv.orElse fun _ => globLine fs).orElse (fun _ => parserLine fs) with
   | some (.ok b) => loop h { st with n := n, pos := st.pos + (if b then 1 else 0) }
   | some (.error e) =>
     IO.println s!"MISMATCH {n} {e} :: {line}"
